@@ -281,6 +281,12 @@ class UnitRegistry:
         equiv = sorted(set(equiv))
         return equiv
 
+    def __setstate__(self, state):
+        # a registry unpickled on its own (or as part of a Unit): see
+        # _use_dimension_singletons
+        self.__dict__.update(state)
+        _use_dimension_singletons(self.lut)
+
     def __deepcopy__(self, memodict=None):
         # entries are immutable tuples; copying the sympy dimension objects
         # would break identity with unyt's dimension singletons
@@ -363,25 +369,30 @@ def _lookup_unit_symbol(symbol_str, unit_symbol_lut):
     )
 
 
+def _singleton_dimensions(dims):
+    """*dims* rebuilt from unyt's own dimension symbols"""
+    by_name = {
+        d.name: d for d in unyt_dims.base_dimensions if getattr(d, "is_Symbol", False)
+    }
+    repl = {
+        s: by_name[s.name]
+        for s in getattr(dims, "free_symbols", ())
+        if s.name in by_name and s is not by_name[s.name]
+    }
+    return dims.xreplace(repl) if repl else dims
+
+
 def _use_dimension_singletons(lut):
     """Rebuild the dimensions of every entry from unyt's own dimension symbols.
 
     Unpickled sympy symbols are equal but not identical to the module-level
     singletons, and a lot of unyt compares dimensions with ``is``.
     """
-    by_name = {
-        d.name: d for d in unyt_dims.base_dimensions if getattr(d, "is_Symbol", False)
-    }
     memo = {}
     for key, entry in lut.items():
         dims = entry[1]
         if id(dims) not in memo:
-            repl = {
-                s: by_name[s.name]
-                for s in getattr(dims, "free_symbols", ())
-                if s.name in by_name and s is not by_name[s.name]
-            }
-            memo[id(dims)] = (dims, dims.xreplace(repl) if repl else dims)
+            memo[id(dims)] = (dims, _singleton_dimensions(dims))
         new_dims = memo[id(dims)][1]
         if new_dims is not dims:
             lut[key] = (entry[0], new_dims) + tuple(entry[2:])
